@@ -420,7 +420,7 @@ class WorkerExtract(Contract):
     (own handle) and the exception queue, and the queue is consulted before returning."""
 
     target = PY + "Worker.extract"
-    props = ("C13", "C06", "C09", "C12")
+    props = ("C13", "C06", "C09", "C12", "C04")
     abstract = True
     self_class = ("py7zr.py7zr", "Worker")
     pure = ("get", "str")
@@ -450,6 +450,15 @@ class WorkerExtract(Contract):
         idx = i + plus
         return B.binop(eng, _ast.Add(), attr(me, "src_start"), B.get_item(eng, positions, idx, None), None)
 
+    def _pos(self, c, name):
+        """position of parameter `name` in the CURRENT signature of Worker.extract_single (after self): positional
+        arguments handed to a worker are checked against the parameter they actually bind to"""
+        fr = c.eng.registry.resolve_target(PY + "Worker.extract_single")
+        names = [a.arg for a in fr.node.args.posonlyargs + fr.node.args.args][1:]
+        if name not in names:
+            raise V.EngineError("anchor lost: Worker.extract_single has no parameter %s" % name)
+        return names.index(name)
+
     def hooks(self):
         def on_inner(c, ev):
             c.oblig("assert", "no-decoding-without-positioning", False, props=("C12", "C06"))
@@ -466,9 +475,13 @@ class WorkerExtract(Contract):
 
             i = Lp.i
             fi = B.get_item(eng, folders, i, None)
-            c.oblig("assert", "folder-member-list@extract_single", eq(ev.args[1], attr(fi, "files")), props=("C06", "C09"))
-            c.oblig("assert", "folder-start-offset@extract_single", eq(ev.args[3], self._expected(c, i, 0)), props=("C06",))
-            c.oblig("assert", "folder-end-offset@extract_single", eq(ev.args[4], self._expected(c, i, 1)), props=("C06",))
+            P = lambda nm: self._pos(c, nm)
+            if len(ev.args) <= max(P("files"), P("src_start"), P("src_end")):
+                c.oblig("assert", "folder-member-list@extract_single", False, props=("C06", "C09"))
+                return
+            c.oblig("assert", "folder-member-list@extract_single", eq(ev.args[P("files")], attr(fi, "files")), props=("C06", "C09"))
+            c.oblig("assert", "folder-start-offset@extract_single", eq(ev.args[P("src_start")], self._expected(c, i, 0)), props=("C06",))
+            c.oblig("assert", "folder-end-offset@extract_single", eq(ev.args[P("src_end")], self._expected(c, i, 1)), props=("C06",))
 
         def on_task(c, ev):
             eng = c.eng
@@ -480,9 +493,10 @@ class WorkerExtract(Contract):
                 return
             fname = eng.frames[0].env.get("filename")
             excq = eng.frames[0].env.get("exc_q")
-            c.oblig("assert", "worker-opens-its-own-handle@concurrent", bool(args[0] is fname and not (args[0] is c.bound["fp"])), props=("C13",))
-            c.oblig("assert", "worker-gets-the-exception-queue@concurrent", bool(excq is not None and args[6] is excq), props=("C13",))
-            c.oblig("assert", "worker-gets-the-skip-flag@concurrent", bool(args[7] is c.bound["skip_notarget"]), props=("C04", "C09"))
+            P = lambda nm: self._pos(c, nm)
+            c.oblig("assert", "worker-opens-its-own-handle@concurrent", bool(args[P("fp")] is fname and not (args[P("fp")] is c.bound["fp"])), props=("C13",))
+            c.oblig("assert", "worker-gets-the-exception-queue@concurrent", bool(excq is not None and args[P("exc_q")] is excq), props=("C13", "C04"))
+            c.oblig("assert", "worker-gets-the-skip-flag@concurrent", bool(args[P("skip_notarget")] is c.bound["skip_notarget"]), props=("C04", "C09"))
             c.oblig("assert", "worker-target-is-extract_single@concurrent", eq(ev.kwargs.get("target"), attr(c.bound["self_"], "extract_single")), props=("C13",))
             me = c.bound["self_"]
             folders = attr(attr(attr(attr(me, "header"), "main_streams"), "unpackinfo"), "folders")
@@ -490,9 +504,9 @@ class WorkerExtract(Contract):
 
             if Lp is not None:
                 fi = B.get_item(eng, folders, Lp.i, None)
-                c.oblig("assert", "folder-member-list@concurrent", eq(args[1], attr(fi, "files")), props=("C06", "C09"))
-                c.oblig("assert", "folder-start-offset@concurrent", eq(args[3], self._expected(c, Lp.i, 0)), props=("C06",))
-                c.oblig("assert", "folder-end-offset@concurrent", eq(args[4], self._expected(c, Lp.i, 1)), props=("C06",))
+                c.oblig("assert", "folder-member-list@concurrent", eq(args[P("files")], attr(fi, "files")), props=("C06", "C09"))
+                c.oblig("assert", "folder-start-offset@concurrent", eq(args[P("src_start")], self._expected(c, Lp.i, 0)), props=("C06",))
+                c.oblig("assert", "folder-end-offset@concurrent", eq(args[P("src_end")], self._expected(c, Lp.i, 1)), props=("C06",))
             eng.ghost["tasks_this_iter"] = eng.ghost.get("tasks_this_iter", 0) + 1
 
         return {("contract-call", PY + "Worker._extract_single"): [on_inner], ("call", "_extract_single"): [on_inner], ("call", "extract_single"): [on_es], ("call", "concurrent"): [on_task]}
